@@ -34,6 +34,13 @@ def base_scenarios(tier, rng):
             for tail in ([], ["disconnect"], ["localclose"]):
                 out.append({"id": "b%d" % i, "connack": ca, "connectCancel": cancel, "steps": ["sample"] + tail + ["sample"]})
                 i += 1
+    # ... because the CONNECT packet itself cannot be written: the transport reports an error and stays open (writeErr) or
+    # dies inside the write (cutBefore); Connect fails, and when the transport is closed (by the cut, by Close(), by
+    # Disconnect) the connection has ended: Done() closed, Closed reported once with the error unless Disconnect was called
+    for o in ("writeErr", "cutBefore"):
+        for tail in ([], ["disconnect"], ["localclose"], ["localclose", "disconnect"]):
+            out.append({"id": "b%d" % i, "connack": "accept", "faults": [{"p": "CONNECT", "n": 1, "o": o}], "steps": ["sample"] + tail + ["wait", "sample"]})
+            i += 1
     # established connection: one end cause, two end causes in sequence, two racing
     for a in ENDS:
         out.append({"id": "b%d" % i, "connack": "accept", "steps": ["sample", a, "wait", "sample"]})
@@ -155,6 +162,11 @@ def run(tier):
         rb = vlib.tlc("Conn", cfg="KB.cfg", files={"KB.cfg": c2}, workers=1, timeout=300)
         if rb.violated != "ErrNilAfterGraceful":
             raise vlib.Infra("non-vacuity: Conn with %s not refuted (%s)" % (sw, rb.violated))
+    # a reader goroutine that is started only after CONNECT was written (c16g) is refuted: Done() is not closed although the
+    # connection has ended
+    rw = vlib.tlc("Conn", cfg="KW.cfg", files={"KW.cfg": open(os.path.join(vlib.SPEC, "Conn.cfg")).read().replace("BugReaderAfterWrite = FALSE", "BugReaderAfterWrite = TRUE")}, workers=1, timeout=300)
+    if rw.violated not in ("DoneIffEnded", "ClosedExactlyOnceIfNoDisconnect"):
+        raise vlib.Infra("non-vacuity: Conn with BugReaderAfterWrite not refuted (%s)" % rw.violated)
     f14 = vlib.tlc("Conn", cfg="ConnF14.cfg", workers=1, timeout=300)
     if f14.violated != "NoClosedAfterDisconnected":
         raise vlib.Infra("Conn model: F14 configuration no longer violates NoClosedAfterDisconnected (%s)" % f14.violated)
